@@ -393,6 +393,44 @@ Section SpecWithAlnum.
     wf_slist l &&
     forallb (fun t => plain_for_rich t && negb (negb (tok_quoted t) && existsb (text_eqb (chars_tok t)) arg_option_like))
             (list_tokens l).
+
+  (** ** Several strings within one instruction (FILE-LIST entries, arguments after a rich string ...):
+      a sequence of segments read from ONE stream: keyword tokens, strings, text-until-end-of-line
+      and here-documents, each followed by white space (after :> text and after a here-document: a
+      new-line and more white space). *)
+  Inductive sseg :=
+  | GTok (t : stoken) (sep : text)                       (* a token that is consumed as it is *)
+  | GStr (as_rich : bool) (t : stoken) (sep : text)      (* a STRING (parsed as STRING / as RICH-STRING) *)
+  | GEol (gap txt : text) (nxt : option text)            (* :> gap txt [NL nxt] *)
+  | GHere (marker trail : text) (lines : list text) (nxt : option text).
+
+  Definition render_seg (g : sseg) : text :=
+    match g with
+    | GTok t sep | GStr _ t sep => render_tok t ++ sep
+    | GEol gap txt nxt => [58; 62] ++ gap ++ txt ++ render_after nxt
+    | GHere m tr ls nxt => [60; 60] ++ m ++ tr ++ [NL] ++ render_lines ls ++ m ++ render_after nxt
+    end.
+  Definition render_segs (l : list sseg) : text := concat (map render_seg l).
+
+  Definition wf_seg (more : bool) (g : sseg) : bool :=
+    match g with
+    | GTok t sep => wf_tok t && forallb is_sep sep && (negb more || nonempty sep)
+    | GStr as_rich t sep =>
+        wf_tok t && forallb is_sep sep && (negb more || nonempty sep) && negb (is_reserved_word t) &&
+        (negb as_rich || plain_for_rich t)
+    | GEol gap txt nxt =>
+        forallb is_sep_no_nl gap && no_nl txt && (nonempty gap || negb (nonempty txt)) &&
+        match nxt with Some ws => forallb is_sep ws | None => negb more end
+    | GHere m tr ls nxt =>
+        nonempty m && forallb marker_char m && forallb is_sep_no_nl tr &&
+        forallb (fun l => no_nl l && negb (text_eqb l m)) ls &&
+        match nxt with Some ws => forallb is_sep ws | None => negb more end
+    end.
+  Fixpoint wf_segs (l : list sseg) (unterm_follows : bool) : bool :=
+    match l with
+    | [] => true
+    | g :: l' => wf_seg (nonempty l' || unterm_follows) g && wf_segs l' unterm_follows
+    end.
 End SpecWithAlnum.
 
 (** * Part 2: cases of the correspondence check *)
@@ -458,6 +496,79 @@ Definition element_eqb (a b : element) : bool :=
   | _, _ => false
   end.
 
+(** one stream, a sequence of operations *)
+Inductive sop := OTok | OString | ORich.
+Definition op_of (g : sseg) : sop :=
+  match g with GTok _ _ => OTok | GStr false _ _ => OString | GStr true _ _ => ORich | GEol _ _ _ | GHere _ _ _ _ => ORich end.
+
+(** what one operation gave: the consumed head token (none if the head was null); the fragments of a
+    string and its value as resolved by the implementation *)
+Inductive sobs :=
+| SoTok (core : option (bool * text * text))
+| SoStr (frs : list fragment) (resolved : text).
+
+(** end to end ([dir d = { file a0 = ... NL file a1 = ... NL }]): the contents of the created files *)
+Inductive script_e2e := EFiles (contents : list text) (next_ok : bool) | ESyntax (line_ok : bool) | EOther.
+
+Section RunScript.
+  Variable al : N -> bool.
+  (** the model: the operations one after the other on the stream *)
+  Fixpoint run_ops (ops : list sop) (ts : tstream) : list (option (bool * text * text) + list fragment) * option exn :=
+    match ops with
+    | [] => ([], None)
+    | op :: ops' =>
+        match op with
+        | OTok =>
+            match ts_consume ts with
+            | Raise ex => ([], Some ex)
+            | Ok (hd, ts') =>
+                let '(r, ex) := run_ops ops' ts' in
+                (inl (match hd with
+                      | Some t => Some (match t_type t with QUOTED => true | PLAIN => false end, t_string t, t_source t)
+                      | None => None
+                      end) :: r, ex)
+            end
+        | OString =>
+            match parse_string al ts with
+            | Raise ex => ([], Some ex)
+            | Ok (frs, ts') => let '(r, ex) := run_ops ops' ts' in (inr frs :: r, ex)
+            end
+        | ORich =>
+            match rich_string_parse al ts with
+            | Raise ex => ([], Some ex)
+            | Ok (frs, ts') => let '(r, ex) := run_ops ops' ts' in (inr frs :: r, ex)
+            end
+        end
+    end.
+
+  Definition core_eqb (a b : bool * text * text) : bool :=
+    Bool.eqb (fst (fst a)) (fst (fst b)) && text_eqb (snd (fst a)) (snd (fst b)) && text_eqb (snd a) (snd b).
+
+  (** correspondence of one operation *)
+  Definition sobs_corr (e : env) (m : option (bool * text * text) + list fragment) (o : sobs) : bool :=
+    match m, o with
+    | inl c, SoTok c' => option_eqb core_eqb c c'
+    | inr frs, SoStr frs' resolved => list_eqb fragment_eqb frs frs' && option_eqb text_eqb (resolve e frs') (Some resolved)
+    | _, _ => false
+    end.
+
+  (** the documented reading of one segment *)
+  Definition seg_value_ok (e : env) (g : sseg) (v : text) : bool :=
+    match g with
+    | GTok _ _ => false
+    | GStr _ t _ => denotes al e t v
+    | GEol _ txt _ => option_eqb text_eqb (subst al e (strip_py txt)) (Some v)
+    | GHere _ _ ls _ => option_eqb text_eqb (subst al e (render_lines ls)) (Some v)
+    end.
+  Definition seg_ok (e : env) (g : sseg) (o : sobs) : bool :=
+    match g, o with
+    | GTok t _, SoTok (Some c) => core_eqb c (tok_quoted t, chars_tok t, render_tok t)
+    | GTok _ _, _ => false
+    | _, SoStr _ v => seg_value_ok e g v
+    | _, SoTok _ => false
+    end.
+End RunScript.
+
 Inductive pkind := KString | KRich | KFile.
 
 (** [f.txt = ], what precedes the rich string of the end-to-end cases *)
@@ -471,11 +582,20 @@ Inductive case :=
 (** parse_string_sdv / RichStringParser on a stream; [Some (lead, r)]: written from this structure *)
 | CParse (k : pkind) (o : oracle) (e : env) (src : text) (structure : option (text * rich)) (obs : parse_obs)
 (** parse_list ([is_args = false]) / the program-argument parser ([is_args = true]) at parser level *)
-| CList (is_args : bool) (o : oracle) (e : env) (ls : lsyms) (src : text) (structure : option (text * slist)) (obs : list_obs)
+| CList (is_args : bool) (o : oracle) (e : env) (ls : lsyms) (src : text) (structure : option (text * slist * option unterminated))
+        (obs : list_obs)
 (** end to end: the argument vector a probe program received from  % probe ARG...  *)
-| CArgs (o : oracle) (e : env) (ls : lsyms) (src : text) (structure : text * slist) (obs : args_obs)
+| CArgs (via_list : bool) (o : oracle) (e : env) (ls : lsyms) (src : text) (structure : text * slist * option unterminated)
+        (obs : args_obs)
+(** a sequence of operations on one stream, written from segments (and possibly an unterminated quote
+    at the end, read by a last STRING operation) *)
+| CScript (o : oracle) (e : env) (src : text) (structure : text * list sseg * option unterminated)
+          (obs : list sobs) (ex : option exn)
+(** the same end to end: [file d-entry] contents created by  dir d = { ... }  *)
+| CScriptE2E (o : oracle) (e : env) (src : text) (structure : text * list sseg * option unterminated) (obs : script_e2e)
 (** symbol_syntax.split on a text *)
 | CSplit (o : oracle) (s : text) (frs : list fragment).
+
 
 Definition env_chars (e : env) : text := flat_map (fun kv => fst kv ++ snd kv) e.
 
@@ -503,6 +623,28 @@ Fixpoint forallb2 {A B} (f : A -> B -> bool) (l : list A) (m : list B) : bool :=
   | [], [] => true
   | a :: l', b :: m' => f a b && forallb2 f l' m'
   | _, _ => false
+  end.
+
+(** an unterminated quote after a list: directly after the items (no parenthesis, nothing else),
+    separated from the last element *)
+Definition wf_list_unterm (l : slist) (ut : option unterminated) : bool :=
+  match ut with
+  | None => true
+  | Some u =>
+      wf_unterm u && match sl_paren l with None => true | Some _ => false end &&
+      match sl_after l with None => true | Some _ => false end &&
+      match rev (sl_items l) with
+      | LTok _ sep :: _ => nonempty sep
+      | _ => true
+      end
+  end.
+
+(** the model results of the rich-string operations only *)
+Fixpoint filter_rich {A} (ops : list sop) (ms : list A) : list A :=
+  match ops, ms with
+  | ORich :: ops', m :: ms' => m :: filter_rich ops' ms'
+  | _ :: ops', _ :: ms' => filter_rich ops' ms'
+  | _, _ => []
   end.
 
 Definition check_case (c : case) : bool * bool :=
@@ -599,13 +741,15 @@ Definition check_case (c : case) : bool * bool :=
         end &&
         match st with
         | None => true
-        | Some (lead, l) => text_eqb src (lead ++ render_slist l) && forallb is_sep_no_nl lead &&
-                            (if is_args then wf_args l else wf_slist l)
+        | Some (lead, l, ut) =>
+            text_eqb src (lead ++ render_slist l ++ match ut with None => [] | Some u => render_unterm u end) &&
+            forallb is_sep_no_nl lead && (if is_args then wf_args l else wf_slist l) && wf_list_unterm l ut
         end,
         match st with
         | None => true
-        | Some (lead, l) =>
-            if list_must_fail l then match obs with LExn _ => true | _ => false end
+        | Some (lead, l, ut) =>
+            if list_must_fail l || match ut with Some _ => true | None => false end
+            then match obs with LExn _ => true | _ => false end
             else match obs with
                  | LObs _ resolved pos =>
                      match_elements al e ls (list_tokens l) resolved &&
@@ -613,11 +757,12 @@ Definition check_case (c : case) : bool * bool :=
                  | LExn _ => false
                  end
         end )
-  | CArgs o e ls src (lead, l) obs =>
+  | CArgs via_list o e ls src (lead, l, ut) obs =>
       let al := oracle_fn o in
-      let model := do ts <- ts_init src; do r <- args_parse al ts; Ok (fst r) in
+      let model := do ts <- ts_init src; do r <- (if via_list then list_parse al ts else args_parse al ts); Ok (fst r) in
       ( oracle_covers o (src ++ env_chars e) && lsyms_consistent e ls &&
-        text_eqb src (lead ++ render_slist l) && forallb is_sep_no_nl lead && wf_args l &&
+        text_eqb src (lead ++ render_slist l ++ match ut with None => [] | Some u => render_unterm u end) &&
+        forallb is_sep_no_nl lead && (if via_list then wf_slist l else wf_args l) && wf_list_unterm l ut &&
         match model, obs with
         | Ok els, AObs argv =>
             option_eqb (list_eqb text_eqb)
@@ -626,11 +771,55 @@ Definition check_case (c : case) : bool * bool :=
         | Raise _, ASyntax _ => true
         | _, _ => false
         end,
-        if list_must_fail l then match obs with ASyntax line_ok => line_ok | _ => false end
+        if list_must_fail l || match ut with Some _ => true | None => false end
+        then match obs with ASyntax line_ok => line_ok | _ => false end
         else match obs with
              | AObs argv => match_elements al e ls (list_tokens l) argv
              | _ => false
              end )
+  | CScript o e src (lead, segs, ut) obs ex =>
+      let al := oracle_fn o in
+      let ops := map op_of segs ++ match ut with Some _ => [OString] | None => [] end in
+      let model := match ts_init src with
+                   | Raise x => ([], Some x)
+                   | Ok ts => run_ops al ops ts
+                   end in
+      ( oracle_covers o (src ++ env_chars e) &&
+        text_eqb src (lead ++ render_segs segs ++ match ut with None => [] | Some u => render_unterm u end) &&
+        forallb is_sep lead && wf_segs segs (match ut with Some _ => true | None => false end) &&
+        match ut with Some u => wf_unterm u | None => true end &&
+        forallb2 (sobs_corr e) (fst model) obs && option_eqb exn_eqb (snd model) ex,
+        match ut with
+        | None => forallb2 (seg_ok al e) segs obs && match ex with None => true | Some _ => false end
+        | Some _ => forallb2 (seg_ok al e) segs obs && match ex with None => false | Some _ => true end
+        end )
+  | CScriptE2E o e src (lead, segs, ut) obs =>
+      let al := oracle_fn o in
+      let ops := map op_of segs ++ match ut with Some _ => [OString] | None => [] end in
+      let model := match ts_init src with
+                   | Raise x => ([], Some x)
+                   | Ok ts => run_ops al ops ts
+                   end in
+      let strings := flat_map (fun m => match m with inr frs => [frs] | inl _ => [] end) (fst model) in
+      let rich_segs := filter (fun g => match g with GTok _ _ => false | GStr false _ _ => false | _ => true end) segs in
+      ( oracle_covers o (src ++ env_chars e) &&
+        text_eqb src (lead ++ render_segs segs ++ match ut with None => [] | Some u => render_unterm u end) &&
+        forallb is_sep lead && wf_segs segs (match ut with Some _ => true | None => false end) &&
+        match ut with Some u => wf_unterm u | None => true end &&
+        match snd model, obs with
+        | None, EFiles contents _ =>
+            (* every second string of an entry is the contents (the first is the file name) *)
+            forallb2 (fun frs v => option_eqb text_eqb (resolve e frs) (Some v))
+                     (flat_map (fun m => match m with inr frs => [frs] | inl _ => [] end)
+                               (filter_rich (map op_of segs) (fst model))) contents
+        | Some _, ESyntax _ => true
+        | _, _ => false
+        end,
+        match ut, obs with
+        | None, EFiles contents next_ok => forallb2 (seg_value_ok al e) rich_segs contents && next_ok
+        | Some _, ESyntax line_ok => line_ok
+        | _, _ => false
+        end )
   | CSplit o s frs =>
       let al := oracle_fn o in
       ( oracle_covers o s && list_eqb fragment_eqb (split al s) frs,
